@@ -23,6 +23,7 @@ pub mod c18;
 pub mod c19;
 pub mod c20;
 pub mod faultvar;
+pub mod interleave;
 pub mod iterwalk;
 pub mod mirismoke;
 pub mod sessmode;
@@ -132,6 +133,7 @@ pub fn run(args: &Args) -> J {
         "c14fault" => faultvar::run_c14(args, &mut rep),
         "c05fault" => faultvar::run_c05(args, &mut rep),
         "iterwalk" => iterwalk::run(args, &mut rep),
+        "interleave" => interleave::run(args, &mut rep),
         "c12fault" => faultvar::run_c12(args, &mut rep),
         "c18" => c18::run(args, &mut rep),
         "c19" => c19::run(args, &mut rep),
